@@ -67,6 +67,8 @@ type Scenario struct {
 	MaxSteps int
 	// ExpectDeadlockFree etc. are implicit: deadlock, livelock (step budget) and panics are violations.
 	Workers int // 0 = default 8
+	// Class prefixes the violation classes of this scenario (default: Name).
+	Class string
 }
 
 // restricted deviation class: rendezvous, spawn, select arms, fs effects and the root lock.
@@ -159,6 +161,11 @@ func runOne(s Scenario, prefix []int, expect []vrt.Choice) (*Ctx, []vrt.Choice, 
 }
 
 var dirSeq int
+
+// MaxWorkers is the number of worker subprocesses alive at any time (file-system heavy: 8 on one
+// tmpfs is the measured sweet spot). Sequential runs the scenario phases one after the other.
+var MaxWorkers = 8
+var Sequential = false
 
 // classify turns scheduler verdicts into failures of the execution.
 func classify(c *Ctx, v vrt.Verdict) {
@@ -381,145 +388,176 @@ func parent(prop, level string, scenarios []Scenario, describe func(r *mc.Run)) 
 		traces   int
 		outcomes map[string]int
 	}
+	tokens := make(chan struct{}, MaxWorkers)
+	var jobs sync.WaitGroup
+	var stderrMu sync.Mutex
 	for _, s := range scenarios {
 		for pi, ph := range phases(s, r.Tier) {
-			if r.Expired() {
-				r.Cap(fmt.Sprintf("deadline before scenario %s phase %d (bound %d %s)", s.Name, pi, ph.Bound, ph.Filter))
-				continue
-			}
-			n := s.Workers
-			if n == 0 {
-				n = 8
-			}
-			if ph.Bound == 0 {
-				n = 1
-			}
-			var mu sync.Mutex
-			last := make([]msg, n)
-			var wg sync.WaitGroup
-			complete := true
-			t0 := time.Now()
-			for k := 0; k < n; k++ {
-				wg.Add(1)
-				go func(k int) {
-					defer wg.Done()
-					dl := time.Now().Add(r.Remaining())
-					cmd := exec.Command(self, "-worker", "-scenario", s.Name, "-phase", fmt.Sprint(pi), "-shard", fmt.Sprint(k), "-nshards", fmt.Sprint(n), "-deadline", fmt.Sprint(dl.Unix()))
-					cmd.Env = append(os.Environ(), "GOMAXPROCS=1", "GOGC=200")
-					cmd.Stderr = os.Stderr
-					out, err := cmd.StdoutPipe()
-					if err != nil {
-						panic(err)
-					}
-					if err := cmd.Start(); err != nil {
-						panic(err)
-					}
-					// hard watchdog: SIGTERM at the deadline + 10 s, SIGKILL 10 s later
-					doneCh := make(chan struct{})
-					go func() {
-						select {
-						case <-doneCh:
-						case <-time.After(time.Until(dl) + 10*time.Second):
-							cmd.Process.Signal(syscall.SIGTERM)
+			s, pi, ph := s, pi, ph
+			jobs.Add(1)
+			runJob := func() {
+				defer jobs.Done()
+				if r.Expired() {
+					r.Cap(fmt.Sprintf("deadline before scenario %s phase %d (bound %d %s)", s.Name, pi, ph.Bound, ph.Filter))
+					return
+				}
+				n := s.Workers
+				if n == 0 {
+					n = 8
+				}
+				if ph.Bound == 0 {
+					n = 1
+				}
+				var mu sync.Mutex
+				last := make([]msg, n)
+				var wg sync.WaitGroup
+				complete := true
+				t0 := time.Now()
+				for k := 0; k < n; k++ {
+					wg.Add(1)
+					go func(k int) {
+						defer wg.Done()
+						tokens <- struct{}{}
+						defer func() { <-tokens }()
+						if r.Expired() {
+							mu.Lock()
+							complete = false
+							mu.Unlock()
+							return
+						}
+						dl := time.Now().Add(r.Remaining())
+						cmd := exec.Command(self, "-worker", "-scenario", s.Name, "-phase", fmt.Sprint(pi), "-shard", fmt.Sprint(k), "-nshards", fmt.Sprint(n), "-deadline", fmt.Sprint(dl.Unix()))
+						cmd.Env = append(os.Environ(), "GOMAXPROCS=1", "GOGC=200")
+						cmd.Stderr = os.Stderr
+						out, err := cmd.StdoutPipe()
+						if err != nil {
+							panic(err)
+						}
+						if err := cmd.Start(); err != nil {
+							panic(err)
+						}
+						// hard watchdog: SIGTERM at the deadline + 10 s, SIGKILL 10 s later
+						doneCh := make(chan struct{})
+						go func() {
 							select {
 							case <-doneCh:
-							case <-time.After(10 * time.Second):
-								cmd.Process.Kill()
-							}
-						}
-					}()
-					sc := bufio.NewScanner(out)
-					sc.Buffer(make([]byte, 1<<20), 1<<26)
-					gotDone := false
-					for sc.Scan() {
-						var m msg
-						if json.Unmarshal(sc.Bytes(), &m) != nil {
-							continue
-						}
-						switch m.T {
-						case "progress", "done":
-							mu.Lock()
-							last[k] = m
-							mu.Unlock()
-							if m.T == "done" {
-								gotDone = true
-								if !m.Complete {
-									mu.Lock()
-									complete = false
-									mu.Unlock()
+							case <-time.After(time.Until(dl) + 10*time.Second):
+								cmd.Process.Signal(syscall.SIGTERM)
+								select {
+								case <-doneCh:
+								case <-time.After(10 * time.Second):
+									cmd.Process.Kill()
 								}
 							}
-						case "violation":
-							rep := map[string]any{"scenario": s.Name, "phase": pi, "bound": ph.Bound, "filter": ph.Filter, "prefix": m.Prefix, "reproduced": "5/5", "how": fmt.Sprintf("bin/replay %s <this file>  (needs the scheduler: replays the schedule prefix, default choices afterwards)", prop)}
-							r.Violation(s.Name+":"+m.Class, fmt.Sprintf("scenario %s, schedule prefix %v: %s", s.Name, m.Prefix, m.Detail), rep)
-						case "harness":
-							fmt.Fprintf(os.Stderr, "harness: scenario %s shard %d: %s: %s (prefix %v)\n", s.Name, k, m.Class, m.Detail, m.Prefix)
-							r.Cap(fmt.Sprintf("harness nondeterminism in scenario %s: %s — %s", s.Name, m.Class, m.Detail))
-							r.Count("harness_errors", 1)
+						}()
+						sc := bufio.NewScanner(out)
+						sc.Buffer(make([]byte, 1<<20), 1<<26)
+						gotDone := false
+						for sc.Scan() {
+							var m msg
+							if json.Unmarshal(sc.Bytes(), &m) != nil {
+								continue
+							}
+							switch m.T {
+							case "progress", "done":
+								mu.Lock()
+								last[k] = m
+								mu.Unlock()
+								if m.T == "done" {
+									gotDone = true
+									if !m.Complete {
+										mu.Lock()
+										complete = false
+										mu.Unlock()
+									}
+								}
+							case "violation":
+								rep := map[string]any{"scenario": s.Name, "phase": pi, "bound": ph.Bound, "filter": ph.Filter, "prefix": m.Prefix, "reproduced": "5/5", "how": fmt.Sprintf("bin/replay %s <this file>  (needs the scheduler: replays the schedule prefix, default choices afterwards)", prop)}
+								r.Violation(classPrefix(s)+":"+m.Class, fmt.Sprintf("scenario %s, schedule prefix %v: %s", s.Name, m.Prefix, m.Detail), rep)
+							case "harness":
+								fmt.Fprintf(os.Stderr, "harness: scenario %s shard %d: %s: %s (prefix %v)\n", s.Name, k, m.Class, m.Detail, m.Prefix)
+								r.Cap(fmt.Sprintf("harness nondeterminism in scenario %s: %s — %s", s.Name, m.Class, m.Detail))
+								r.Count("harness_errors", 1)
+							}
 						}
+						cmd.Wait()
+						close(doneCh)
+						if !gotDone {
+							mu.Lock()
+							complete = false
+							mu.Unlock()
+							r.Cap(fmt.Sprintf("worker %d of scenario %s phase %d ended without a final record (killed by watchdog or crashed); its last progress record is used", k, s.Name, pi))
+						}
+					}(k)
+				}
+				wg.Wait()
+				total := agg{outcomes: map[string]int{}}
+				points, maxpts := 0, 0
+				counters := map[string]int{}
+				sample := ""
+				for _, m := range last {
+					total.execs += m.Execs
+					total.steps += m.Steps
+					total.traces += m.Traces
+					for k, v := range m.Outcomes {
+						total.outcomes[k] += v
 					}
-					cmd.Wait()
-					close(doneCh)
-					if !gotDone {
-						mu.Lock()
-						complete = false
-						mu.Unlock()
-						r.Cap(fmt.Sprintf("worker %d of scenario %s phase %d ended without a final record (killed by watchdog or crashed); its last progress record is used", k, s.Name, pi))
+					for k, v := range m.Counters {
+						counters[k] += v
 					}
-				}(k)
-			}
-			wg.Wait()
-			total := agg{outcomes: map[string]int{}}
-			points, maxpts := 0, 0
-			counters := map[string]int{}
-			sample := ""
-			for _, m := range last {
-				total.execs += m.Execs
-				total.steps += m.Steps
-				total.traces += m.Traces
-				for k, v := range m.Outcomes {
-					total.outcomes[k] += v
+					if m.Points > points {
+						points = m.Points
+					}
+					if m.MaxPts > maxpts {
+						maxpts = m.MaxPts
+					}
+					if sample == "" {
+						sample = m.Sample
+					}
 				}
-				for k, v := range m.Counters {
-					counters[k] += v
+				r.Eval(total.execs)
+				r.State(total.traces)
+				r.Transition(int(total.steps))
+				for k, v := range total.outcomes {
+					for i := 0; i < v && i < 1; i++ {
+						r.Outcome(s.Name + "|" + k)
+					}
+					r.Count("outcome:"+s.Name+"|"+trunc(k, 80), int64(v))
 				}
-				if m.Points > points {
-					points = m.Points
+				for k, v := range counters {
+					r.Count(s.Name+":"+k, int64(v))
 				}
-				if m.MaxPts > maxpts {
-					maxpts = m.MaxPts
+				if !complete {
+					r.Cap(fmt.Sprintf("scenario %s phase %d (deviation bound %d %s) not completed: %d schedules explored", s.Name, pi, ph.Bound, ph.Filter, total.execs))
 				}
-				if sample == "" {
-					sample = m.Sample
+				r.Note(fmt.Sprintf("scenario:%s:phase%d", s.Name, pi), map[string]any{
+					"deviation_bound": ph.Bound, "deviation_class": orAll(ph.Filter), "completed": complete, "schedules": total.execs,
+					"scheduling_steps": total.steps, "choice_points_default_schedule": points, "max_choice_points": maxpts,
+					"distinct_observation_vectors": len(total.outcomes), "workers": n, "wall_s": time.Since(t0).Seconds(),
+				})
+				if sample != "" {
+					r.Sample(map[string]any{"scenario": s.Name, "bound": ph.Bound, "schedule": sample})
 				}
+				stderrMu.Lock()
+				fmt.Fprintf(os.Stderr, "  %s phase %d bound=%d %s: schedules=%d outcomes=%d complete=%v %.1fs\n", s.Name, pi, ph.Bound, ph.Filter, total.execs, len(total.outcomes), complete, time.Since(t0).Seconds())
+				stderrMu.Unlock()
 			}
-			r.Eval(total.execs)
-			r.State(total.traces)
-			r.Transition(int(total.steps))
-			for k, v := range total.outcomes {
-				for i := 0; i < v && i < 1; i++ {
-					r.Outcome(s.Name + "|" + k)
-				}
-				r.Count("outcome:"+s.Name+"|"+trunc(k, 80), int64(v))
+			if Sequential {
+				runJob()
+			} else {
+				go runJob()
 			}
-			for k, v := range counters {
-				r.Count(s.Name+":"+k, int64(v))
-			}
-			if !complete {
-				r.Cap(fmt.Sprintf("scenario %s phase %d (deviation bound %d %s) not completed: %d schedules explored", s.Name, pi, ph.Bound, ph.Filter, total.execs))
-			}
-			r.Note(fmt.Sprintf("scenario:%s:phase%d", s.Name, pi), map[string]any{
-				"deviation_bound": ph.Bound, "deviation_class": orAll(ph.Filter), "completed": complete, "schedules": total.execs,
-				"scheduling_steps": total.steps, "choice_points_default_schedule": points, "max_choice_points": maxpts,
-				"distinct_observation_vectors": len(total.outcomes), "workers": n, "wall_s": time.Since(t0).Seconds(),
-			})
-			if sample != "" {
-				r.Sample(map[string]any{"scenario": s.Name, "bound": ph.Bound, "schedule": sample})
-			}
-			fmt.Fprintf(os.Stderr, "  %s phase %d bound=%d %s: schedules=%d outcomes=%d complete=%v %.1fs\n", s.Name, pi, ph.Bound, ph.Filter, total.execs, len(total.outcomes), complete, time.Since(t0).Seconds())
 		}
 	}
+	jobs.Wait()
 	r.Finish()
+}
+
+func classPrefix(s Scenario) string {
+	if s.Class != "" {
+		return s.Class
+	}
+	return s.Name
 }
 
 func orAll(f string) string {
